@@ -1,7 +1,7 @@
 (** Number literals: the double handed to the parser is the correctly rounded value of the decimal text. *)
-From Coq Require Import ZArith Reals Lia Lra Bool List.
+From Coq Require Import ZArith NArith Nnat Reals Lia Lra Bool List.
 From Flocq Require Import Core.Core IEEE754.BinarySingleNaN.
-From SC Require Import Base.F64 Base.RustInt Lang.Lexer Lang.Literal.
+From SC Require Import Base.F64 Base.RustInt Base.Dec Lang.Lexer Lang.Literal.
 Import ListNotations.
 Local Open Scope R_scope.
 
@@ -75,4 +75,35 @@ Theorem parse_f64_two_points ip fp rest :
 Proof.
   intros Hd. unfold parse_f64. rewrite (split_point_dot ip _ Hd). destruct ip; [reflexivity|]. rewrite Hd.
   rewrite forallb_app. simpl. rewrite andb_false_r. reflexivity.
+Qed.
+
+(** ** Decimal literals: the written-out exact path of Decimal::from_str *)
+Lemma digits_val_bound cs : forallb is_digit cs = true ->
+  forall acc, digits_val acc cs < (acc + 1) * 10 ^ N.of_nat (length cs).
+Proof.
+  induction cs as [|c cs IH]; intros H acc.
+  - simpl. lia.
+  - simpl in H. apply andb_prop in H as [Hc Hr]. cbn [digits_val length].
+    specialize (IH Hr (acc * 10 + digit_val c)).
+    unfold is_digit in Hc. apply andb_prop in Hc as [H1 H2]. apply N.leb_le in H1, H2.
+    assert (digit_val c <= 9) by (unfold digit_val; lia).
+    rewrite Nat2N.inj_succ, N.pow_succ_r'. nia.
+Qed.
+
+Theorem parse_dec_exact_spec ip fp :
+  ip <> [] -> forallb is_digit ip = true -> forallb is_digit fp = true -> (length ip + length fp <= 28)%nat ->
+  parse_dec_exact ip = Some {| d_neg := false; d_coef := digits_val 0 ip; d_scale := 0 |} /\
+  parse_dec_exact (ip ++ ch_dot :: fp) =
+    Some {| d_neg := false; d_coef := digits_val 0 (ip ++ fp); d_scale := N.of_nat (length fp) |} /\
+  digits_val 0 (ip ++ fp) < 2 ^ 96.
+Proof.
+  intros Hne Hi Hf Hl. unfold parse_dec_exact. rewrite (split_point_digits ip Hi), (split_point_dot ip fp Hi).
+  destruct ip as [|c ip']; [congruence|]. rewrite Hi, Hf.
+  assert (L1 : (length (c :: ip') <=? 28)%nat = true) by (apply Nat.leb_le; lia).
+  assert (L2 : (length (c :: ip') + length fp <=? 28)%nat = true) by (apply Nat.leb_le; lia).
+  rewrite L1, L2. simpl andb. repeat split.
+  assert (Hd : forallb is_digit ((c :: ip') ++ fp) = true) by (rewrite forallb_app, Hi, Hf; reflexivity).
+  pose proof (digits_val_bound _ Hd 0) as B. rewrite app_length in B.
+  apply N.lt_le_trans with (1 := B). rewrite N.add_0_l, N.mul_1_l.
+  apply N.le_trans with (10 ^ 28); [apply N.pow_le_mono_r; lia|]. vm_compute. discriminate.
 Qed.
